@@ -103,7 +103,7 @@ func regularArch(r *hx.Rng) *Arch {
 }
 
 // irregular archives: one named deviation each
-var irregularKinds = []string{"types", "nosum", "ea", "sigend", "ckend", "fakesig", "fakesig-other", "hdr32", "coalesced", "dirdata", "nested-nosum", "only-dirs", "empty"}
+var irregularKinds = []string{"types", "nosum", "ea", "sigend", "ckend", "fakesig", "fakesig-other", "hdr32", "coalesced", "dirdata", "nested-nosum", "nosum-empty", "only-dirs", "empty"}
 
 func irregularArch(r *hx.Rng, kind string) *Arch {
 	a := regularArch(r)
@@ -126,6 +126,10 @@ func irregularArch(r *hx.Rng, kind string) *Arch {
 	case "nosum":
 		two()
 		a.Mems[r.Intn(2)].Sum = ""
+	case "nosum-empty":
+		// a member of length zero without <archived-checksum>: the one kind of unsummed member Sign still accepts
+		a.Mems = []*Mem{{Name: "z", HasData: true, Data: nil, Sum: ""}, {Name: "a", HasData: true, Data: randData(r, 12), Sum: "sha1"},
+			{Name: "y", HasData: true, Data: nil, Sum: ""}}
 	case "nested-nosum":
 		a.Mems = []*Mem{{Name: "d", Dir: true, Kids: []*Mem{{Name: "e", Dir: true, Kids: []*Mem{{Name: "x", HasData: true, Data: randData(r, 9), Sum: ""}}}}},
 			{Name: "a", HasData: true, Data: randData(r, 12), Sum: "sha256"}}
@@ -704,9 +708,9 @@ func genMalformed(w *bufio.Writer, r *hx.Rng, bases [][]byte, n int, prop string
 			case "hsize":
 				v = uint64(r.Pick(0, 1, 27, 28, 29, 32, int(28+h.CLen), int(28+h.CLen+1), 65535))
 			case "clen":
-				v = uint64([]int64{0, 1, -1, h.CLen - 1, h.CLen + 1, h.CLen + 20, int64(len(f)), int64(len(f)) - 28, 1000000, 1000001, 1 << 40, 1<<63 - 1, -1 << 63, -h.CLen}[r.Intn(14)])
+				v = uint64([]int64{0, 1, -1, h.CLen - 1, h.CLen + 1, h.CLen + 20, int64(len(f)), int64(len(f)) + 1, int64(len(f)) - 28, 1000000, 1000001, 1 << 40, 1<<63 - 1, -1 << 63, -h.CLen}[r.Intn(15)])
 			case "ulen":
-				v = uint64([]int64{0, 1, -1, 10000000, 10000001, 1<<63 - 1, -1 << 63}[r.Intn(7)])
+				v = uint64([]int64{0, 1, -1, h.ULen - 1, h.ULen + 1, 10000000, 10000001, 100000000, 100000001, 1<<63 - 1, -1 << 63}[r.Intn(11)])
 			case "htype":
 				v = uint64(r.Pick(0, 1, 2, 3, 4, 5, 255, 1<<32-1))
 			case "version":
@@ -890,7 +894,7 @@ func genAlloc(w *bufio.Writer, r *hx.Rng) {
 	a := regularArch(r)
 	a.FakeSig = 256
 	root, heap := a.Layout()
-	// sizes make() refuses: the panic of xar.Open (negative, or above 2^48)
+	// sizes make() refuses (negative, or above 2^48): a panic of xar.Open before a62cce4, now "size out of range"
 	for i, sz := range []int64{-1, -1 << 63, 1<<48 + 1, 1 << 62} {
 		rt := root.Clone()
 		el := "signature"
@@ -916,18 +920,51 @@ func genAlloc(w *bufio.Writer, r *hx.Rng) {
 		setText(rt.Child("toc").Child(el).Child("size"), strconv.FormatInt(sz, 10))
 		emitOpen(w, Assemble(a.Hash, 28, -1, rt, heap, true))
 	}
-	// a table of contents that inflates to far more than the file holds (the header's uncompressed size is not looked at)
+	// the limits themselves: a header that declares one byte less than the TOC inflates to (refused), one byte more (fine),
+	// a negative uncompressed / compressed size (refused before anything is read);
+	// an old signature of 10^6 + 1 bytes (refused: invalid size) and of 10^6 (a size Sign accepts; the areas no longer tile)
+	g0 := Assemble(a.Hash, 28, -1, root, heap, true)
+	if h0, ok := ParseHeader(g0); ok {
+		for _, u := range []int64{h0.ULen - 1, h0.ULen + 1, -1} {
+			emitOpen(w, setHdr(g0, "ulen", uint64(u)))
+			emitSign(w, setHdr(g0, "ulen", uint64(u)), crypto.SHA256, "rsa", false)
+		}
+		emitOpen(w, setHdr(g0, "clen", uint64(1<<64-1)))
+		emitSign(w, setHdr(g0, "clen", uint64(1<<64-1)), crypto.SHA256, "rsa", false)
+	}
+	for _, sz := range []int64{1000001, 1000000} {
+		rt := root.Clone()
+		setText(rt.Child("toc").Child("signature").Child("size"), strconv.FormatInt(sz, 10))
+		emitSign(w, Assemble(a.Hash, 28, -1, rt, heap, true), crypto.SHA256, "p256", false)
+	}
+	// a table of contents that inflates to far more than the file holds.  Since a62cce4 the header's uncompressed size is a
+	// limit: the honest header (40 MiB declared, below maxTOCSize) is still inflated in full; a header that declares less
+	// than the stream yields is refused after declared+1 bytes; a header that declares more than 10^8 is refused unread.
 	pad := El("pad", Tx(strings.Repeat(" ", 40<<20)))
 	rt := root.Clone()
 	rt.Child("toc").Add(pad)
 	bomb := Assemble(a.Hash, 28, 9, rt, heap, true)
 	if len(bomb) < 400000 {
-		// the op line cannot carry the inflated tree: the TOC field is `-`, the outcome class is compared loosely
+		// the op line cannot carry the inflated tree: the TOC field is `-`; with the honest header the outcome class is
+		// compared loosely, with the other two the model's answer does not depend on the tree
 		fmt.Fprintf(w, "XAR open %s - -\n", hx.Hex(bomb))
+		fmt.Fprintf(w, "XAR open %s - -\n", hx.Hex(setHdr(bomb, "ulen", 1000)))
+		fmt.Fprintf(w, "XAR vfy %s - - 0 -\n", hx.Hex(setHdr(bomb, "ulen", 1<<20)))
+		fmt.Fprintf(w, "XAR open %s - -\n", hx.Hex(setHdr(bomb, "ulen", 200000000)))
 		fmt.Fprintf(w, "XAR sign %s - = 5 p256 0 %s 0\n", hx.Hex(setHdr(bomb, "ulen", 1000)), dersField("p256"))
+		fmt.Fprintf(w, "XAR sign %s - = 5 p256 0 %s 0\n", hx.Hex(bomb), dersField("p256"))
 	}
-	// an old signature area of 2^40 bytes by its <size>: one patch entry per 2^32-1 bytes
+	// an old signature area of 2^40 bytes by its <size> (one patch entry per 2^32-1 bytes before 5d6eee4; now refused: a
+	// <size> above 10^6), and the largest area Sign accepts: 12 elements of 10^6 bytes that tile, far beyond the file
 	rt = root.Clone()
 	setText(rt.Child("toc").Child("signature").Child("size"), strconv.FormatInt(1<<40, 10))
 	emitSign(w, Assemble(a.Hash, 28, -1, rt, heap, true), crypto.SHA256, "p256", false)
+	e := irregularArch(r, "empty")
+	e.FakeSig = 256
+	eroot, eheap := e.Layout()
+	setText(eroot.Child("toc").Child("signature").Child("size"), "1000000")
+	for i := 0; i < 10; i++ {
+		eroot.Child("toc").Add(El("x-signature", Leaf("offset", strconv.Itoa(HashSize(e.Hash)+1000000*(i+1))), Leaf("size", "1000000")).Attr("style", "CMS"))
+	}
+	emitSign(w, Assemble(e.Hash, 28, -1, eroot, eheap, true), crypto.SHA256, "p256", false)
 }
